@@ -269,4 +269,121 @@ Section TermProofs.
     apply (frames_never_torn (compile prog) (tq t) (tty t) X); auto.
     now rewrite written_compile.
   Qed.
+
+  (* ---------------- the strong form: frames delimited by flush / poll only *)
+  Definition is_internal (r : round) : bool := match r with KInternal _ => true | _ => false end.
+
+  (* fresh = nothing has been handed to the terminal object since the last flush / poll *)
+  Fixpoint tdrops_fresh (fresh : bool) (prog : list top) : Prop :=
+    match prog with
+    | [] => True
+    | TWrite _ :: r | TExecute _ :: r => tdrops_fresh false r
+    | TFlush :: r => tdrops_fresh true r
+    | TPoll sched :: r => tdrops_fresh (negb (existsb is_internal sched)) r
+    | TDrop :: r => fresh = true /\ tdrops_fresh fresh r
+    end.
+
+  Fixpoint fresh_after (fresh : bool) (ops : list (op A)) : bool :=
+    match ops with
+    | [] => fresh
+    | OWrite _ :: r => fresh_after false r
+    | OFlush :: r => fresh_after true r
+    | _ :: r => fresh_after fresh r
+    end.
+
+  Lemma drops_fresh_app : forall (a b : list (op A)) fresh,
+    drops_fresh_plain fresh a -> drops_fresh_plain (fresh_after fresh a) b ->
+    drops_fresh_plain fresh (a ++ b).
+  Proof.
+    induction a as [|o a IH]; intros b fresh Ha Hb; cbn in *; auto.
+    destruct o; cbn in *; auto. destruct Ha. split; auto.
+  Qed.
+
+  Lemma drops_fresh_mono : forall (ops : list (op A)), drops_fresh_plain false ops -> drops_fresh_plain true ops.
+  Proof.
+    induction ops as [|o ops IH]; cbn; auto. destruct o; cbn; auto. intros [H _]. discriminate.
+  Qed.
+
+  Lemma drops_fresh_weaken : forall (ops : list (op A)) f1 f2,
+    (f1 = true -> f2 = true) -> drops_fresh_plain f1 ops -> drops_fresh_plain f2 ops.
+  Proof.
+    intros ops [|] [|] H Hd; auto; [specialize (H eq_refl); discriminate|now apply drops_fresh_mono].
+  Qed.
+
+  Lemma rounds_fresh : forall (sched : list round) fresh,
+    drops_fresh_plain fresh (concat (map compile_round sched))
+    /\ (fresh_after fresh (concat (map compile_round sched)) = true ->
+        fresh = true /\ existsb is_internal sched = false)
+    /\ (fresh = true -> existsb is_internal sched = false ->
+        fresh_after fresh (concat (map compile_round sched)) = true).
+  Proof.
+    induction sched as [|r sched IH]; intro fresh; cbn [map concat existsb].
+    - cbn. auto.
+    - destruct r as [k| |b]; cbn [compile_round app is_internal orb drops_fresh_plain fresh_after].
+      + exact (IH fresh).
+      + exact (IH fresh).
+      + destruct (IH false) as (H1 & H2 & H3). split; auto. split.
+        * intro H. destruct (H2 H) as [Hx _]. discriminate.
+        * intros _ Hx. discriminate.
+  Qed.
+
+  Lemma writes_fresh : forall (bs : list (list A)) fresh,
+    drops_fresh_plain fresh (map OWrite bs).
+  Proof. induction bs; intro fresh; cbn; auto. Qed.
+
+  Lemma compile_drops_fresh : forall (prog : list top) fresh,
+    tdrops_fresh fresh prog -> drops_fresh_plain fresh (compile prog).
+  Proof.
+    unfold compile. induction prog as [|o prog IH]; intros fresh H; [exact I|].
+    cbn [map concat]. destruct o as [b|bs| |sched|]; cbn [tdrops_fresh compile_top] in *.
+    - cbn. now apply IH.
+    - apply drops_fresh_app; [apply writes_fresh|].
+      eapply drops_fresh_weaken; [|apply IH; exact H]. discriminate.
+    - cbn. now apply IH.
+    - cbn [app drops_fresh_plain].
+      destruct (rounds_fresh sched true) as (H1 & H2 & H3).
+      apply drops_fresh_app; auto.
+      eapply drops_fresh_weaken; [|apply IH; exact H].
+      intro Hn. apply H3; auto. now apply negb_true_iff in Hn.
+    - cbn. destruct H. split; auto.
+  Qed.
+
+  (* frames_drop right after a flush or a poll (the render loop of terminal.rs, dispose after a
+     poll): frames are what lies between two consecutive flushes / polls, nothing else, and
+     every discarded chunk is one whole such frame, no byte of which reaches the tty *)
+  Theorem term_frames_flush_delimited : forall (prog : list top) t X,
+    (N.of_nat (length (twritten prog)) <= usize_max)%N ->
+    tdrops_fresh true prog ->
+    trun term0 prog [] = Ok (t, X) ->
+    let tops := tag_ops_g false 0 0 (compile prog) in
+    exists qt Rt Xt,
+      exec qempty tops [] [] = Ok (qt, Rt, Xt)
+      /\ (tq t, tty t, X) = res_map fst (qt, Rt, Xt)
+      /\ Forall (fun c => exists f, c = filt tframe f (written tops)) Xt
+      /\ (forall e, In e (concat Xt) -> ~ In e Rt /\ ~ In e (pending qt)).
+  Proof.
+    intros prog t X HB Hd E tops.
+    destruct (term_delivery prog HB) as (t' & X' & E' & Ex & _). rewrite E in E'.
+    inversion E'; subst t' X'.
+    apply (frames_never_torn_flush_delimited (compile prog) (tq t) (tty t) X); auto.
+    - now rewrite written_compile.
+    - now apply compile_drops_fresh.
+  Qed.
+
+  (* the render loop: poll; drop when too many frames are pending; write the frame *)
+  Definition render_iteration (it : list round * bool * list (list A)) : list top :=
+    let '(sched, dropit, frame) := it in
+    TPoll sched :: (if dropit then [TDrop] else []) ++ map TWrite frame.
+
+  Lemma render_loop_drops_fresh : forall (its : list (list round * bool * list (list A))) fresh,
+    Forall (fun it => existsb is_internal (fst (fst it)) = false) its ->
+    tdrops_fresh fresh (concat (map render_iteration its)).
+  Proof.
+    induction its as [|[[sched d] frame] its IH]; intros fresh H; [exact I|].
+    inversion H as [|? ? Hs Hr]; subst. cbn [fst] in Hs.
+    cbn [map concat render_iteration app tdrops_fresh]. rewrite Hs. cbn [negb].
+    assert (Hw : forall (ws : list (list A)) f, tdrops_fresh f (map TWrite ws ++ concat (map render_iteration its))).
+    { induction ws as [|w ws IHw]; intro f; cbn; auto. }
+    destruct d; cbn [app tdrops_fresh]; [split; auto|]; apply Hw.
+  Qed.
 End TermProofs.
